@@ -127,7 +127,8 @@ pub fn impure_log_args(m: &syn::Macro) -> Result<Vec<Expr>, String> {
     }
     Ok(out)
 }
-fn is_select(m: &syn::Macro) -> bool { m.path.segments.last().map(|s| s.ident == "select").unwrap_or(false) }
+fn is_select(m: &syn::Macro) -> bool { m.path.segments.last().map(|s| s.ident == "select" || s.ident == "select_biased").unwrap_or(false) }
+fn is_select_biased(m: &syn::Macro) -> bool { m.path.segments.last().map(|s| s.ident == "select_biased").unwrap_or(false) }
 fn is_panic(m: &syn::Macro) -> bool { m.path.segments.last().map(|s| matches!(s.ident.to_string().as_str(), "panic" | "unreachable" | "unimplemented" | "todo")).unwrap_or(false) }
 fn is_pin_macro(m: &syn::Macro) -> bool { m.path.segments.last().map(|s| s.ident == "pin").unwrap_or(false) }
 
@@ -409,6 +410,9 @@ impl<'c> Rw<'c> {
         if !arms.0.iter().any(|a| a.kw.as_deref() == Some("complete")) { match_arms.push(quote!(Sel::Complete => vpanic(),)); }
         let (f0, f1) = (&futs[0], &futs[1]);
         self.cx.fire("A4");
+        // A4b: `select_biased!` always prefers its first ready arm: the other source can be starved for ever (select2_biased carries that
+        // as an obligation); otherwise it behaves like select!
+        if is_select_biased(m) { self.cx.fire("A4b"); return Some(parse_quote!(match select2_biased(#f0, #f1) { #(#match_arms)* })); }
         Some(parse_quote!(match select2(#f0, #f1) { #(#match_arms)* }))
     }
 
